@@ -102,6 +102,9 @@ type Res struct {
 	// Hook lets a property wrap the honest authoritative answer (tampering, adversary
 	// behaviours). It returns the datagrams to send; nil = honest reply.
 	Hook func(addr netip.Addr, q *simnet.Query, honest *authsim.Answer) []simnet.Reply
+	// PreServe runs before the authoritative answer is built: a property can change zone
+	// content as a function of (fake) time, e.g. stamp the serving instant into the data.
+	PreServe func(addr netip.Addr, q *simnet.Query)
 	oldRand func(int) int
 }
 
@@ -297,6 +300,9 @@ func (r *Res) Now() time.Duration { return time.Since(r.Start) }
 func (r *Res) serve(addr netip.Addr, q *simnet.Query) []simnet.Reply {
 	if q.Msg == nil {
 		return nil
+	}
+	if r.PreServe != nil {
+		r.PreServe(addr, q)
 	}
 	honest := r.World.Respond(addr, q.Msg)
 	if r.Hook != nil {
